@@ -3,6 +3,7 @@ package props
 import (
 	"fmt"
 	"go/token"
+	"strings"
 
 	"golang.org/x/tools/go/ssa"
 
@@ -23,6 +24,8 @@ func runC06(c *Ctx) {
 	c.Rule("C06.O1", "E4/SSA", "the loop-carried values of Parse's byte loop are exactly the index family, the token-start family and the data slice", 1)
 	c.Rule("C06.O2", "E4", "resume at the carried length with start 0; carry block stores data[start:] of size len(data)-start under left>0, keeps the buffer when start==0, releases it when nothing is left", 2)
 	c.Rule("C06.O3", "E4", "success returns: empty-input guard, upgrade hand-off, and the return behind the carry block only; body states enter the carry block only on their 'left < need' edge", 2)
+	c.Rule("C06.O5", "E4", "before the incoming bytes are joined to the carried ones, Parse rejects only on the terminal state and on ReadLimit (excluded by the property); any other per-call rejection would depend on where the stream was cut", 1)
+	c.Rule("C06.O6", "E4/SSA", "the index moves only by the loop's +1 or to start-1 after a counted body; the token start is set only to the index, the index+1, 0, or start + the body/chunk length: no jump is computed by looking ahead in the buffer", 2)
 	c.Rule("C06.O4", "E5", "only Parse stores to Parser.bytesCached", 1)
 
 	parse := c.Fn("C06.O1", fnParse)
@@ -400,6 +403,144 @@ func runC06(c *Ctx) {
 		c.Cond(bad == "", "C06.O3", fnKey(c.P, parse, "body states wait for the whole body"), c.FnPos(parse), "Content-Length and chunk-data states leave only on left < need", bad)
 	}
 
+	// ------------------------------------------------------------------ O6
+	{
+		idxFam := find(idxPhi)
+		isK := func(v ssa.Value, k int64) bool { x, ok := ir.ConstInt(v); return ok && x == k }
+		famOf := func(v ssa.Value) *ssa.Phi {
+			if p := base(v); p != nil {
+				return find(p)
+			}
+			return nil
+		}
+		lenField := func(v ssa.Value) bool {
+			k := c.P.LoadedField(ir.Resolve(v))
+			return k == "nbhttp.Parser.contentLength" || k == "nbhttp.Parser.chunkSize"
+		}
+		check := func(fam *ssa.Phi, what string, allowed func(v ssa.Value) bool) {
+			bad := ""
+			n := 0
+			for _, p := range phis {
+				if find(p) != fam {
+					continue
+				}
+				for k, e := range p.Edges {
+					v := ir.Resolve(e)
+					if q, isPhi := v.(*ssa.Phi); isPhi && inSet[q] && find(q) == fam {
+						continue
+					}
+					if !loop[p.Block().Preds[k]] {
+						continue // value at loop entry: decided by O2
+					}
+					if in, isIn := v.(ssa.Instruction); isIn && !loop[in.Block()] {
+						continue // computed before the loop (the label before the loop belongs to the cycle): O2
+					}
+					n++
+					if !allowed(v) {
+						bad = "the " + what + " is set to " + c.P.Desc(v) + " on the edge into " + c.Pos(p) + ": a position computed from anything but the current index or a counted body length depends on how many bytes happen to be buffered"
+					}
+				}
+			}
+			if n == 0 && bad == "" {
+				bad = "no assignment of the " + what + " found inside the loop"
+			}
+			c.Cond(bad == "", "C06.O6", fnKey(c.P, parse, what+" moves"), c.Pos(header), fmt.Sprintf("%d in-loop assignment(s), all of an allowed form", n), bad)
+		}
+		check(idxFam, "index", func(v ssa.Value) bool {
+			b, ok := v.(*ssa.BinOp)
+			if !ok || !isK(b.Y, 1) {
+				return false
+			}
+			switch b.Op {
+			case token.ADD:
+				return famOf(b.X) == idxFam
+			case token.SUB:
+				if startFam == nil {
+					return false
+				}
+				if famOf(b.X) == startFam {
+					return true
+				}
+				if a, ok := ir.Resolve(b.X).(*ssa.BinOp); ok && a.Op == token.ADD && famOf(a.X) == startFam {
+					return lenField(a.Y)
+				}
+			}
+			return false
+		})
+		if startFam != nil {
+			check(startFam, "token start", func(v ssa.Value) bool {
+				if isK(v, 0) {
+					return true
+				}
+				if f := famOf(v); f == idxFam {
+					// i or i+1
+					if b, ok := v.(*ssa.BinOp); ok {
+						return b.Op == token.ADD && isK(b.Y, 1)
+					}
+					return true
+				}
+				if b, ok := v.(*ssa.BinOp); ok && b.Op == token.ADD && famOf(b.X) == startFam {
+					return lenField(b.Y)
+				}
+				return false
+			})
+		}
+	}
+
+	// ------------------------------------------------------------------ O5
+	{
+		first := parse.Blocks[0].Instrs[0]
+		vis, _ := fi.Reach([]ssa.Instruction{first}, func(in ssa.Instruction) bool { return in == ssa.Instruction(header) })
+		bad := ""
+		n := 0
+		mentions := func(v ssa.Value, field string) bool {
+			seen := map[ssa.Value]bool{}
+			var walk func(v ssa.Value, d int) bool
+			walk = func(v ssa.Value, d int) bool {
+				if v == nil || seen[v] || d > 6 {
+					return false
+				}
+				seen[v] = true
+				if k := c.P.LoadedField(v); strings.HasSuffix(k, field) {
+					return true
+				}
+				if in, ok := v.(ssa.Instruction); ok {
+					for _, op := range in.Operands(nil) {
+						if *op != nil && walk(*op, d+1) {
+							return true
+						}
+					}
+				}
+				return false
+			}
+			return walk(v, 0)
+		}
+		for _, r := range fi.Returns() {
+			if !vis[r] || loop[r.Block()] {
+				continue
+			}
+			if ir.IsNilConst(ir.RetVals(r)[0]) {
+				continue
+			}
+			if call, isCall := ir.Resolve(ir.RetVals(r)[0]).(*ssa.Call); isCall && c.P.CalleeName(&call.Call) == "invoke:nbhttp.ParserCloser.Parse" {
+				continue // hand-off to the upgraded protocol's parser
+			}
+			n++
+			closeK := c.stateConsts()["stateClose"]
+			ok := fi.HasFact(r, func(ft ir.Fact) bool {
+				if mentions(ft.Cond, ".ReadLimit") {
+					return true
+				}
+				cmp, isCmp := ir.DecodeIntCmp(ft.Cond)
+				return isCmp && c.P.LoadedField(cmp.Expr) == "nbhttp.Parser.state" && !cmp.NotEq && cmp.TrueSet.Lo == closeK && cmp.TrueSet.Hi == closeK && ft.Truth
+			})
+			if !ok {
+				bad = "Parse rejects at " + c.Pos(r) + " before the incoming bytes are joined to the carried ones, on a condition other than the terminal state or ReadLimit: the same stream is accepted or rejected depending on where it was cut"
+			}
+		}
+		c.Cond(bad == "", "C06.O5", fnKey(c.P, parse, "per-call rejections"), c.FnPos(parse), fmt.Sprintf("%d rejection(s) before the join: terminal state, ReadLimit", n), bad)
+	}
+
 	// ------------------------------------------------------------------ O4
 	{
 		writers := map[string]bool{}
@@ -417,4 +558,17 @@ func runC06(c *Ctx) {
 		c.Cond(ok, "C06.O4", "writers of nbhttp.Parser.bytesCached", "", fmt.Sprintf("%v (%d stores)", sortedKeys(writers), n),
 			fmt.Sprintf("the carry buffer is written by %v (%d stores); expected only Parse (append, upgrade release, two carries, release)", sortedKeys(writers), n))
 	}
+}
+
+// stripCmp returns the non-constant operand of a comparison (or v itself).
+func stripCmp(v ssa.Value) ssa.Value {
+	if b, ok := stripNot(v).(*ssa.BinOp); ok {
+		if _, isK := b.Y.(*ssa.Const); isK {
+			return ir.Resolve(b.X)
+		}
+		if _, isK := b.X.(*ssa.Const); isK {
+			return ir.Resolve(b.Y)
+		}
+	}
+	return v
 }
